@@ -394,6 +394,8 @@ class _MergedCircuit:
                 (self.qubit_indexes[q][-1] for q in c_qs),
                 (self.mkey_indexes[ckey][-1] for ckey in c.ckeys),
                 (self.ckey_indexes[mkey][-1] for mkey in c.mkeys),
+                # Measurements recording the same key must keep their relative order.
+                (self.mkey_indexes[mkey][-1] for mkey in c.mkeys),
             ),
             default=-1,
         )
@@ -402,6 +404,25 @@ class _MergedCircuit:
             return []
 
         return [c for c in self.components_by_index[idx] if not c_qs.isdisjoint(c.qubits)]
+
+    def can_move_to_latest_moment(self, c: Component) -> bool:
+        """Checks that no later moment records or reads a measurement key that `c` records or reads.
+
+        Args:
+            c: Component that a merge would move to the latest moment.
+
+        Returns:
+            True if moving `c` keeps its order relative to all operations sharing its keys.
+        """
+        return all(
+            indexes[key][-1] <= c.moment_id
+            for keys, indexes in (
+                (c.mkeys, self.mkey_indexes),
+                (c.mkeys, self.ckey_indexes),
+                (c.ckeys, self.mkey_indexes),
+            )
+            for key in keys
+        )
 
     def get_cirq_circuit(self, cset: ComponentSet, merged_circuit_op_tag: str) -> cirq.Circuit:
         """Returns the merged circuit.
@@ -530,7 +551,9 @@ def _merge_operations_impl(
                 # Case-2: left_c will merge right into `c` whenever possible.
                 for left_c in left_comp:
                     is_merged = False
-                    if c_qs.issuperset(left_c.qubits):
+                    if c_qs.issuperset(left_c.qubits) and merged_circuit.can_move_to_latest_moment(
+                        left_c
+                    ):
                         # Make a shallow copy of the left component data before merge
                         left_c_data = copy.copy(left_c)
                         # Try to merge left_c into c
